@@ -295,6 +295,13 @@ func (tr *FnTrans) loopHeader(h *ssa.BasicBlock, ord int, st *BState, phiVal fun
 	for _, a := range autos {
 		tr.autoPhis[h] = append(tr.autoPhis[h], a.phi)
 	}
+	// earlier iterations may have allocated: the state at the loop head is as of a later counter
+	{
+		nac := tr.smt.fresh("ac_loop", "Int")
+		tr.assume(st.reach, fmt.Sprintf("(>= %s %s)", nac, st.ac), "allocation counter only grows")
+		st.ac = nac
+		tr.curState = st
+	}
 	// havoc
 	preLoopHeap := st.heap
 	body := tr.loopBody[h]
@@ -425,11 +432,6 @@ func (tr *FnTrans) loopHeader(h *ssa.BasicBlock, ord int, st *BState, phiVal fun
 				tr.stableCells(st, v.T, et, preLoopHeap, st.heap)
 			}
 		}
-	}
-	{
-		nac := tr.smt.fresh("ac_loop", "Int")
-		tr.assume(st.reach, fmt.Sprintf("(>= %s %s)", nac, st.ac), "allocation counter only grows")
-		st.ac = nac
 	}
 	tr.curState = st
 	over2 := map[string]Val{}
@@ -688,7 +690,35 @@ func (tr *FnTrans) instr(st *BState, in ssa.Instruction) {
 		tup := x.Type().(*types.Tuple)
 		var vs []Val
 		for i := 0; i < tup.Len(); i++ {
-			vs = append(vs, tr.introduce(fmt.Sprintf("%s_%d", x.Name(), i), tup.At(i).Type(), st.reach, "range-next"))
+			et := tup.At(i).Type()
+			if b, ok := et.(*types.Basic); ok && b.Kind() == types.Invalid {
+				// a component the loop does not use (for k := range m): go/ssa gives it no type
+				vs = append(vs, Val{T: "false", Ty: types.Typ[types.Bool]})
+				continue
+			}
+			vs = append(vs, tr.introduce(fmt.Sprintf("%s_%d", x.Name(), i), et, st.reach, "range-next"))
+		}
+		// ranging over a map yields keys the map holds, with the values it holds for them
+		if rg, ok := x.Iter.(*ssa.Range); ok && len(vs) == 3 {
+			if mt, isMap := rg.X.Type().Underlying().(*types.Map); isMap {
+				m := tr.val(rg.X)
+				ks, es := tr.smt.sortOf(mt.Key()), tr.smt.sortOf(mt.Elem())
+				dom := fmt.Sprintf("(select %s %s)", st.heap.lookup(fmt.Sprintf("(Array %s Bool)", ks)), m.T)
+				facts := []string{fmt.Sprintf("(not (= %s nil))", m.T)}
+				if tup.At(1).Type() == types.Typ[types.Invalid] {
+					// the loop ignores the key: the value still belongs to some key of the map
+					vs[1] = tr.introduce(x.Name()+"_key", mt.Key(), st.reach, "key of the value a range loop yields")
+				}
+				{
+					facts = append(facts, fmt.Sprintf("(select %s %s)", dom, vs[1].T))
+					tr.keyCand(vs[1])
+					if b, isB := tup.At(2).Type().(*types.Basic); !isB || b.Kind() != types.Invalid {
+						vals := fmt.Sprintf("(select %s %s)", st.heap.lookup(fmt.Sprintf("(Array %s %s)", ks, es)), m.T)
+						facts = append(facts, fmt.Sprintf("(= %s (select %s %s))", vs[2].T, vals, vs[1].T))
+					}
+				}
+				tr.assume(and(st.reach, vs[0].T), and(facts...), "range over a map yields its own keys and values")
+			}
 		}
 		tr.vals[x] = Val{Tuple: vs, Ty: x.Type()}
 	case *ssa.Range:
@@ -954,6 +984,16 @@ func (tr *FnTrans) index(st *BState, x *ssa.Index) {
 	default:
 		panic(unsupported("Index on " + x.X.Type().String()))
 	}
+}
+
+// mapLen: the number of keys of a map, as an uninterpreted function of its key set (0 for nil).
+func (tr *FnTrans) mapLen(h *Heap, m Val) string {
+	mt := m.Ty.Underlying().(*types.Map)
+	ks := tr.smt.sortOf(mt.Key())
+	domS := fmt.Sprintf("(Array %s Bool)", ks)
+	fn := "maplen_" + sanitize(ks)
+	tr.smt.declareFun(fn, []string{domS}, tr.smt.intSortW(64))
+	return fmt.Sprintf("(ite (= %s nil) %s (%s (select %s %s)))", m.T, tr.lit64(0), fn, h.lookup(domS), m.T)
 }
 
 // keyCand: a map key the code itself uses is a natural instantiation term for quantified facts about maps.
@@ -2452,8 +2492,7 @@ func (tr *FnTrans) builtin(st *BState, ci ssa.CallInstruction, b *ssa.Builtin) V
 		case *types.Pointer:
 			return Val{T: tr.lit64(args[0].Ty.Underlying().(*types.Pointer).Elem().Underlying().(*types.Array).Len()), Ty: intT}
 		case *types.Map:
-			tr.smt.declareFun("maplen", []string{"Ref", "Int"}, tr.smt.intSortW(64))
-			n := tr.smt.define("maplen", tr.smt.intSortW(64), fmt.Sprintf("(maplen %s %d)", args[0].T, st.heap.id))
+			n := tr.smt.define("maplen", tr.smt.intSortW(64), tr.mapLen(st.heap, args[0]))
 			tr.assume(st.reach, tr.ivLe(tr.lit64(0), n), "len(map) >= 0")
 			return Val{T: n, Ty: intT}
 		default:
